@@ -1320,8 +1320,25 @@ impl DhtNetworkManager {
         best_nodes.push(self.local_dht_node());
         self.mark_self_queried(&mut queried_nodes);
 
-        // Start with local knowledge
-        let initial = self.find_closest_nodes_local(key, count).await;
+        // A candidate is "dominated" if we already have `count` answered nodes (best_nodes
+        // is kept sorted and truncated, so .last() is the farthest of them) and the
+        // candidate is no closer than that farthest node: querying it cannot improve the
+        // result any more.
+        let dominated = |best: &[DHTNode], node: &DHTNode| {
+            best.len() >= count
+                && best.last().is_some_and(|worst| {
+                    matches!(
+                        Self::compare_node_distance(node, worst, key),
+                        std::cmp::Ordering::Equal | std::cmp::Ordering::Greater
+                    )
+                })
+        };
+
+        // Start with everything we know locally: peers beyond the `count` closest are still
+        // needed when closer ones do not answer.
+        let initial = self
+            .find_closest_nodes_local(key, MAX_CANDIDATE_NODES)
+            .await;
         let mut candidates: VecDeque<DHTNode> = VecDeque::new();
         for node in initial {
             queued_peer_ids.insert(node.peer_id.clone());
@@ -1338,12 +1355,17 @@ impl DhtNetworkManager {
                 break;
             }
 
-            // Select up to ALPHA unqueried nodes to query
+            // Closest candidates are queried first
+            candidates
+                .make_contiguous()
+                .sort_by(|a, b| Self::compare_node_distance(a, b, key));
+
+            // Select up to ALPHA unqueried nodes that can still improve the result
             let mut batch: Vec<DHTNode> = Vec::new();
             while batch.len() < ALPHA && !candidates.is_empty() {
                 if let Some(node) = candidates.pop_front() {
                     queued_peer_ids.remove(&node.peer_id);
-                    if !queried_nodes.contains(&node.peer_id) {
+                    if !queried_nodes.contains(&node.peer_id) && !dominated(&best_nodes, &node) {
                         batch.push(node);
                     }
                 }
@@ -1351,7 +1373,7 @@ impl DhtNetworkManager {
 
             if batch.is_empty() {
                 debug!(
-                    "[NETWORK] All candidates queried after {} iterations",
+                    "[NETWORK] All useful candidates queried after {} iterations",
                     iteration
                 );
                 break;
@@ -1381,16 +1403,18 @@ impl DhtNetworkManager {
 
             let results = futures::future::join_all(query_futures).await;
 
-            let mut found_new_closer = false;
             for (peer_id, result) in results {
                 queried_nodes.insert(peer_id.clone());
 
                 match result {
                     Ok(DhtNetworkResult::NodesFound { nodes, .. }) => {
                         self.record_peer_success(&peer_id).await;
-                        // Add successful node to best_nodes
+                        // Add successful node to best_nodes (kept sorted and truncated so that
+                        // the dominance test below sees the current `count` best)
                         if let Some(queried_node) = batch.iter().find(|n| n.peer_id == peer_id) {
                             best_nodes.push(queried_node.clone());
+                            best_nodes.sort_by(|a, b| Self::compare_node_distance(a, b, key));
+                            best_nodes.truncate(count);
                         }
                         for mut node in nodes {
                             Self::ensure_cached_dht_key(&mut node);
@@ -1400,19 +1424,7 @@ impl DhtNetworkManager {
                             {
                                 continue;
                             }
-                            // A candidate is "dominated" only if we already have K
-                            // best_nodes AND the candidate is no closer than the
-                            // farthest node in our best set. best_nodes is sorted
-                            // by distance at the end of each iteration, so .last()
-                            // is the farthest.
-                            let dominated = best_nodes.len() >= count
-                                && best_nodes.last().is_some_and(|worst| {
-                                    matches!(
-                                        Self::compare_node_distance(&node, worst, key),
-                                        std::cmp::Ordering::Equal | std::cmp::Ordering::Greater
-                                    )
-                                });
-                            if !dominated {
+                            if !dominated(&best_nodes, &node) {
                                 if candidates.len() >= MAX_CANDIDATE_NODES {
                                     trace!(
                                         "[NETWORK] Candidate queue at capacity ({}), dropping {}",
@@ -1423,7 +1435,6 @@ impl DhtNetworkManager {
                                 }
                                 queued_peer_ids.insert(node.peer_id.clone());
                                 candidates.push_back(node);
-                                found_new_closer = true;
                             }
                         }
                     }
@@ -1432,6 +1443,8 @@ impl DhtNetworkManager {
                         // Add successful node to best_nodes
                         if let Some(queried_node) = batch.iter().find(|n| n.peer_id == peer_id) {
                             best_nodes.push(queried_node.clone());
+                            best_nodes.sort_by(|a, b| Self::compare_node_distance(a, b, key));
+                            best_nodes.truncate(count);
                         }
                     }
                     Err(e) => {
@@ -1442,15 +1455,9 @@ impl DhtNetworkManager {
                 }
             }
 
-            // Sort and truncate once per iteration instead of per result
-            best_nodes.sort_by(|a, b| Self::compare_node_distance(a, b, key));
-            best_nodes.truncate(count);
-
-            if !found_new_closer {
-                info!("[NETWORK] Converged after {} iterations", iteration + 1);
-                break;
-            }
-
+            // The lookup ends when no queued candidate can improve the result any more
+            // (checked when the next batch is selected), not when one round of replies
+            // happened to name nobody new: peers learned earlier may still be unqueried.
             let snapshot: BTreeSet<String> = queued_peer_ids.iter().cloned().collect();
             if let Some(previous) = &previous_candidate_snapshot
                 && !snapshot.is_empty()
